@@ -8,7 +8,12 @@ exists, the real update wrapper) and compared with
 * a gradient reference obtained from an independently written objective:
   per-sample Jacobians of *our* log-density / value formulas (jax.jacrev)
   contracted in float64 with the documented per-sample coefficients, or
-  jax.grad of our own objective for the pathwise (DPG / SAC) losses.
+  jax.grad of our own objective for the pathwise (DPG / SAC) losses;
+* for ``update_ppo`` with several epochs: explicit epochs on ``ppo_loss`` with
+  the rollout-time log-probabilities, advantages and returns held fixed (the
+  clipped surrogate is defined w.r.t. the policy that collected the rollout);
+* for the SAC temperature: the sign of the loss gradient and of 1-3 consecutive
+  ``EntropyControl.update`` steps at log(alpha) anywhere in -25..8.
 
 See DESIGN.md §5 C12.
 """
@@ -29,8 +34,17 @@ RULE = (
     "ppo: non-trivial = batch >= 2, both advantage signs, reference gradient norm > 0 and, in mixed mode, samples "
     "clipped on both sides or at least one sample clipped on its favoured side next to one that still contributes "
     "(the dedicated unchanged-parameters / all-clipped modes count with both advantage signs). "
-    "dpg / sac_actor: non-trivial = batch >= 2 and gradient norm > 0. sac_alpha: non-trivial = entropy "
-    "estimate separated from the target by more than the float32 margin. Distinct = distinct canonical case."
+    "ppo_update: update_ppo on environment-major rollouts (6 signatures quick / 15 thorough: 1-4 environments x "
+    "2-12 steps, all three stochastic heads, critics (N,) and (N,1), drawn termination flags, rewards x0.3..10) "
+    "with epochs 1, 2, 3 and plain SGD optimizers whose actor learning rate is drawn (0.1-4) or scaled so that "
+    "the first epoch changes the largest log-probability by about 0.4 / 0.8 / 1.5; non-trivial = epochs >= 2, "
+    "the actor moves and at least one sample is clipped on the side its advantage favours at the start of an "
+    "epoch >= 2 of the reference (ratios within the float32 error of a clip boundary: case excluded). "
+    "dpg / sac_actor: non-trivial = batch >= 2 and gradient norm > 0. sac_alpha: log(alpha) for the gradient "
+    "clause and for the start of 1-3 consecutive EntropyControl updates (learning rates 3e-4..3) is drawn by "
+    "regime from -25..8 (0, [-2,2], (2,8], [-25,-20), [-20,-2), special values); target entropy = default or "
+    "placed 0.01..10 above / below the sampled estimate; non-trivial = entropy estimate separated from the "
+    "target by more than the float32 margin. Distinct = distinct canonical case."
 )
 ASSUMPTIONS = [
     "float32 arithmetic (library regime); value references in float64 from the float32 forward passes, "
@@ -40,6 +54,16 @@ ASSUMPTIONS = [
     "coefficients 0.5 (value term) and 0.01 (entropy bonus) of ppo_loss are taken from the anchored mechanism; "
     "the docstring does not state them",
     "batch size 1: the same per-sample value or a loud rejection are both accepted",
+    "ppo_update: the reference performs `epochs` explicit gradient steps on the library's own ppo_loss (checked "
+    "by the ppo sub-check) with the library's compute_gae per environment (checked by C07), old "
+    "log-probabilities / advantages / returns of the rollout-time networks held fixed; parameters must agree "
+    "within 2e-4 of the largest total step + 4 ulp + 3x the measured effect of a 1e-6 relative perturbation of "
+    "the starting parameters (cases where that effect exceeds 2% of the step are excluded as ill-conditioned)",
+    "sac_alpha: the direction of a temperature step is read from log(alpha) (the optimised parameter; alpha is "
+    "checked to be its float32 exponential); a strict move is demanded only where Adam's step, about "
+    "lr*|g|/(|g|+1e-8), is at least 40 float32 spacings of log(alpha) - below that only 'not the wrong way'. "
+    "A start away from log(alpha)=0 is produced by assigning the log_alpha parameter of a freshly constructed "
+    "EntropyControl (fresh optimizer state)",
 ]
 
 _QUICK = lambda: gen.tier() == "quick"  # noqa: E731
@@ -504,6 +528,254 @@ def run_ppo(case):
     return Outcome(labels=labels, nontrivial=nt)
 
 
+# ------------------------------------------------- PPO update over several epochs
+
+# (head, n_envs, steps per env, obs dim, action dim / number of actions, hidden, shared head, critic output).
+# update_ppo is compiled once per signature and (epochs, n_envs); the learning rates live in the optimizer
+# state (optax.inject_hyperparams), so they do not add compilations.
+SIGS_UPD = [
+    ("softmax", 1, 6, 3, 3, [4], False, "N1"), ("softmax", 2, 4, 2, 3, [4], False, "N"),
+    ("gaussian", 2, 3, 3, 1, [4], True, "N1"), ("gaussian", 1, 5, 2, 2, [4], False, "N"),
+    ("tanh_gaussian", 2, 4, 3, 2, [4], True, "N1"), ("tanh_gaussian", 3, 2, 3, 1, [], False, "N"),
+]
+SIGS_UPD_WIDE = SIGS_UPD + [
+    ("softmax", 3, 2, 3, 2, [], False, "N1"),
+    ("softmax", 4, 3, 4, 5, [5, 3], False, "N1"), ("softmax", 1, 12, 2, 2, [4], False, "N1"),
+    ("softmax", 2, 8, 3, 4, [7], False, "N"), ("gaussian", 3, 4, 4, 2, [5, 3], False, "N1"),
+    ("gaussian", 1, 2, 1, 1, [], True, "N"), ("tanh_gaussian", 1, 7, 2, 1, [4], False, "N"),
+    ("tanh_gaussian", 3, 3, 3, 3, [7], True, "N1"), ("gaussian", 2, 6, 3, 3, [4], True, "N1"),
+]
+
+
+@st.composite
+def ppo_update_cases(draw):
+    head, n_envs, T, obs_dim, act_dim, hidden, shared, cshape = draw(
+        st.sampled_from(SIGS_UPD if _QUICK() else SIGS_UPD_WIDE))
+    n = n_envs * T
+    # NB: Hypothesis over-represents the first element of sampled_from / first branch of one_of (its "simplest"
+    # choice): the choices that make a case non-trivial come first
+    lrs = st.one_of(st.sampled_from([1.0, 3.0, 0.3]), st.sampled_from([3.0, 1.0]), gen.f32(0.1, 4.0))
+    case = {
+        "head": head, "n_envs": n_envs, "T": T, "n": n, "obs_dim": obs_dim, "act_dim": act_dim,
+        "hidden": list(hidden), "shared": shared, "critic_shape": cshape, "critic_hidden": [4],
+        "box": draw(st.sampled_from(["unit", "asym", "wide", "tiny"])),
+        "net_seed": draw(gen.seeds()), "data_seed": draw(gen.seeds()), "critic_seed": draw(gen.seeds()),
+        "pscale": draw(st.sampled_from([1.0, 1.0, 0.1, 3.0])) if head == "softmax" else draw(
+            st.sampled_from([1.0, 1.0, 0.1])),
+        "obs_scale": draw(st.sampled_from([1.0, 3.0])),
+        "epochs": draw(st.sampled_from([2, 3, 2, 3, 2, 1])),
+        # plain SGD; the actor's rate is large enough that one epoch moves probability ratios out of the
+        # clip range (what several epochs on one rollout are about)
+        "lr_actor": draw(lrs),
+        # fixed: lr_actor as drawn; auto: lr_actor is scaled in run() so that the first epoch changes the largest
+        # log-probability by about `lr_delta` (first-order estimate from a trial step of 1e-3)
+        "lr_mode": draw(st.sampled_from(["auto", "fixed", "auto"])),
+        "lr_delta": draw(st.sampled_from([0.8, 0.4, 1.5])),
+        "lr_critic": draw(st.one_of(st.sampled_from([0.01, 0.1, 0.5]), gen.f32(0.001, 0.5))),
+        "rew_scale": draw(st.sampled_from([1.0, 3.0, 0.3, 1.0, 10.0])),
+        "term": draw(gen.flags(n)),
+        # successor values: the critic on successor observations, or free numbers
+        "nv_mode": draw(st.sampled_from(["critic", "critic", "free"])),
+    }
+    return case
+
+
+_UPD = {}
+
+
+def _sgd_optimizer(module, lr):
+    """nnx.Optimizer with plain SGD whose learning rate is an entry of the optimizer state: one optax
+    transformation object for all cases (nnx.Optimizer keeps it as static graph data; a new object per
+    case would re-trace update_ppo every time)."""
+    import optax
+    from flax import nnx
+
+    if "tx" not in _UPD:
+        _UPD["tx"] = optax.inject_hyperparams(optax.sgd)(learning_rate=1.0)
+    opt = nnx.Optimizer(module, _UPD["tx"], wrt=nnx.Param)
+    opt.opt_state.hyperparams["learning_rate"].value = _jnp().asarray(np.float32(lr))
+    return opt
+
+
+def _ref_epoch():
+    """One explicit epoch: a gradient step of both optimizers on ppo_loss with *given* rollout-time
+    log-probabilities, advantages and returns (jitted once per signature)."""
+    if "ref_epoch" not in _UPD:
+        from flax import nnx
+        from rl_blox.algorithm.ppo import ppo_loss
+
+        @nnx.jit
+        def ref_epoch(actor, critic, opt_actor, opt_critic, old_logp, obs, act, advs, rets):
+            loss, (ga, gc) = nnx.value_and_grad(ppo_loss, argnums=(0, 1))(
+                actor, critic, old_logp, obs, act, advs, rets)
+            opt_actor.update(actor, ga)
+            opt_critic.update(critic, gc)
+            return loss
+
+        _UPD["ref_epoch"] = ref_epoch
+    return _UPD["ref_epoch"]
+
+
+def _upd_nets(case, perturb=0.0):
+    import jax
+    from flax import nnx
+
+    policy, info = _policy(case)
+    critic = pn.make_mlp(case["obs_dim"], 1, case["critic_hidden"], case["critic_seed"])
+    if perturb:
+        for i, m in enumerate((policy, critic)):
+            stt = nnx.state(m, nnx.Param)
+            leaves, treedef = jax.tree_util.tree_flatten(stt)
+            r = np.random.default_rng(case["net_seed"] + 991 + i)
+            leaves = [x * (1.0 + np.float32(perturb) * r.choice(np.float32([-1.0, 1.0]), size=x.shape))
+                      for x in leaves]
+            nnx.update(m, jax.tree_util.tree_unflatten(treedef, leaves))
+    if case["critic_shape"] == "N":
+        critic = _classes()["FlatCritic"](critic)
+    return policy, info, critic
+
+
+def _reference_epochs(case, data, lr_actor, perturb=0.0, epochs=None):
+    """`epochs` explicit gradient steps on ppo_loss; old log-probabilities, advantages and returns are those
+    of the rollout-time networks (GAE per environment of the environment-major rollout, as update_ppo
+    documents) and stay fixed.  Also returns, for the start of every epoch, the float64 probability ratios."""
+    jnp = _jnp()
+    from rl_blox.blox.gae import compute_gae
+
+    obs, actions, reward, term, next_value = data
+    ne, T = case["n_envs"], case["T"]
+    policy, info, critic = _upd_nets(case, perturb)
+    oa, oc = _sgd_optimizer(policy, lr_actor), _sgd_optimizer(critic, case["lr_critic"])
+    start = (pn.flat_params(policy), pn.flat_params(critic))
+    values = critic(obs).reshape(-1)
+    advs, rets = [], []
+    for e in range(ne):
+        sl = slice(e * T, (e + 1) * T)
+        a, r = compute_gae(reward[sl], values[sl], next_value[sl], term[sl])
+        advs.append(a)
+        rets.append(r)
+    advs, rets = jnp.concatenate(advs), jnp.concatenate(rets)
+    old = policy.log_probability(obs, actions)
+    old64 = pn.ref_logp64(case["head"], policy, info, obs, actions)
+    err0, kappa = pn.logp_conditioning(case["head"], policy, info, obs, actions)
+    trace, losses = [], []
+    for e in range(epochs or case["epochs"]):
+        if e == 0:
+            ratio, err = np.ones(case["n"]), np.zeros(case["n"])
+        else:
+            ratio = np.exp(pn.ref_logp64(case["head"], policy, info, obs, actions) - old64)
+            err_e, k = pn.logp_conditioning(case["head"], policy, info, obs, actions)
+            err, kappa = err0 + err_e, max(kappa, k)
+        trace.append((ratio, err))
+        losses.append(float(_ref_epoch()(policy, critic, oa, oc, old, obs, actions, advs, rets)))
+    return {"actor": pn.flat_params(policy), "critic": pn.flat_params(critic), "start": start,
+            "adv": np.asarray(advs, dtype=np.float64), "ret": np.asarray(rets, dtype=np.float64),
+            "trace": trace, "losses": losses, "kappa": kappa}
+
+
+def run_ppo_update(case):
+    jnp = _jnp()
+    import inspect
+
+    from rl_blox.algorithm.ppo import ppo_loss, update_ppo
+
+    n, ne, epochs = case["n"], case["n_envs"], case["epochs"]
+    clip = float(inspect.signature(ppo_loss).parameters["clip"].default)
+    labels = [case["head"], f"epochs={epochs}", f"n_envs={ne}", f"T={case['T']}", "critic=" + case["critic_shape"]]
+    policy, info, critic = _upd_nets(case)
+    obs = jnp.asarray(_obs(case))
+    actions = _actions(case, policy, info, obs)
+    reward = jnp.asarray(gen.rng_array(case["data_seed"] + 3, (n,), case["rew_scale"]))
+    term = jnp.asarray(np.asarray(case["term"], dtype=bool))
+    if case["nv_mode"] == "critic":
+        next_value = critic(jnp.asarray(_obs(case, offset=5))).reshape(-1)
+    else:
+        next_value = jnp.asarray(gen.rng_array(case["data_seed"] + 4, (n,), case["rew_scale"]))
+    data = (obs, actions, reward, term, next_value)
+
+    lr_actor = float(np.float32(case["lr_actor"]))
+    if case.get("lr_mode", "fixed") == "auto":
+        trial = _reference_epochs(case, data, 1e-3, epochs=2)
+        slope = np.abs(np.log(trial["trace"][1][0])) / 1e-3
+        slope = float(np.max(np.where(trial["adv"] != 0.0, slope, 0.0)))
+        if np.isfinite(slope) and slope > 0.0:
+            lr_actor = float(np.float32(min(max(case["lr_delta"] / slope, 1e-2), 30.0)))
+    labels.append("lr=" + case.get("lr_mode", "fixed"))
+    ref = _reference_epochs(case, data, lr_actor)
+    finite = all(bool(np.all(np.isfinite(v))) for who in ("actor", "critic") for v in ref[who].values()) \
+        and bool(np.all(np.isfinite(ref["losses"])))
+    if not finite:
+        return Outcome(labels=labels + ["reference-diverged"], nontrivial=False)
+    # (no cut-off on the conditioning number kappa of the log-density here: library and reference evaluate the
+    # same float32 expressions; kappa enters through err below, the update's own conditioning through the probe)
+    # which samples are clipped on the side their advantage favours at the start of each epoch; a ratio that
+    # sits on a clip boundary within the float32 error of the log-density could fall on either side
+    adv = ref["adv"]
+    fav = []
+    for ratio, err in ref["trace"]:
+        near = np.minimum(np.abs(ratio / (1.0 + clip) - 1.0), np.abs(ratio / (1.0 - clip) - 1.0))
+        if np.any((near < 20.0 * err + 5e-4) & (adv != 0.0)):
+            return Outcome(labels=labels + ["excluded-ratio-side-ambiguous"], nontrivial=False)
+        fav.append(((adv > 0) & (ratio > 1.0 + clip)) | ((adv < 0) & (ratio < 1.0 - clip)))
+    n_fav_late = int(sum(int(f.sum()) for f in fav[1:]))
+    n_out_late = int(sum(int(((r > 1.0 + clip) | (r < 1.0 - clip)).sum()) for r, _ in ref["trace"][1:]))
+    # float32 conditioning of the whole update: the same reference from parameters perturbed by 1e-6 (relative)
+    probe = _reference_epochs(case, data, lr_actor, perturb=1e-6)
+
+    oa, oc = _sgd_optimizer(policy, lr_actor), _sgd_optimizer(critic, case["lr_critic"])
+    loss = update_ppo(policy, critic, oa, oc, obs, actions, reward, term, next_value, epochs=epochs, n_envs=ne)
+    after = {"actor": pn.flat_params(policy), "critic": pn.flat_params(critic)}
+
+    def dev(a, b):
+        return max(float(np.max(np.abs(a[k] - b[k]))) if a[k].size else 0.0 for k in a)
+
+    steps = {}
+    for i, who in enumerate(("actor", "critic")):
+        steps[who] = big = dev(ref[who], ref["start"][i])
+        cond = dev(probe[who], ref[who])
+        if not np.isfinite(cond) or cond > 0.02 * big + 1e-5:
+            return Outcome(labels=labels + ["ill-conditioned-update"], nontrivial=False)
+        pmax = max(float(np.max(np.abs(v))) for v in ref[who].values())
+        # 2e-4 of the largest total step (fused vs. stepwise float32 evaluation of the same gradients; observed
+        # on the unchanged tree: <= 2e-6), a few ulp of the largest parameter, and the measured sensitivity to
+        # 1e-6 relative perturbations of the starting parameters
+        tol = 2e-4 * big + 4.0 * float(np.spacing(np.float32(max(pmax, 1e-3)))) + 3.0 * cond
+        worst = dev(after[who], ref[who])
+        check(np.isfinite(worst) and worst <= tol,
+              f"ppo_update.{who}_params_follow_epochs_on_rollout_time_surrogate",
+              lambda: f"epochs={epochs} n_envs={ne} head={case['head']} lr_actor={lr_actor} "
+                      f"lr_critic={case['lr_critic']}: max |param - reference| = {worst:.4g} (largest reference "
+                      f"step {big:.4g}, tolerance {tol:.4g}); favoured-clipped samples per epoch "
+                      f"{[int(f.sum()) for f in fav]}, ratios at the last epoch {ref['trace'][-1][0].tolist()}, "
+                      f"advantages {adv.tolist()}")
+    lref, lprobe = ref["losses"][-1], probe["losses"][-1]
+    lscale = max(1.0, abs(lref), float(np.max(np.abs(adv))) * (1.0 + clip), float(np.max(ref["ret"] ** 2)))
+    check(np.shape(loss) == () and abs(float(loss) - lref) <= 1e-4 * lscale + 3.0 * abs(lprobe - lref),
+          "ppo_update.returns_loss_of_last_epoch",
+          lambda: f"epochs={epochs}: returned {float(loss)}, reference loss of epoch {epochs}: {lref} "
+                  f"(per epoch {ref['losses']})")
+    labels += [f"fav-clipped@e>=2={min(n_fav_late, 3)}", "ratios-left-clip-range" if n_out_late else "ratios-inside",
+               "actor-moves" if steps["actor"] > 0 else "actor-still",
+               "terminations" if any(case["term"]) else "no-termination"]
+    return Outcome(labels=labels, nontrivial=epochs >= 2 and n_fav_late >= 1 and steps["actor"] > 0)
+
+
+def _simplify_upd(case):
+    if case["epochs"] > 1:
+        yield dict(case, epochs=case["epochs"] - 1)
+    if any(case["term"]):
+        yield dict(case, term=[0] * case["n"])
+    for k, v in (("pscale", 1.0), ("obs_scale", 1.0), ("box", "unit"), ("rew_scale", 1.0), ("nv_mode", "free"),
+                 ("lr_mode", "fixed"), ("lr_actor", 1.0), ("lr_critic", 0.1), ("net_seed", 0), ("data_seed", 0), ("critic_seed", 0)):
+        if case[k] != v:
+            yield dict(case, **{k: v})
+    for sig in SIGS_UPD[:2]:
+        head, n_envs, T, obs_dim, act_dim, hidden, shared, cshape = sig
+        if (case["head"], case["n_envs"], case["T"]) != (head, n_envs, T):
+            yield dict(case, head=head, n_envs=n_envs, T=T, n=n_envs * T, obs_dim=obs_dim, act_dim=act_dim,
+                       hidden=list(hidden), shared=shared, critic_shape=cshape, term=[0] * (n_envs * T))
+
+
 # -------------------------------------------------- deterministic policy gradient
 
 @st.composite
@@ -824,19 +1096,49 @@ def run_sac(case):
 
 # ----------------------------------------------------------- SAC temperature
 
+_LA_RANGES = {"inner": (-2.0, 2.0), "above2": (2.0, 8.0), "below-20": (-25.0, -20.0), "negative": (-20.0, -2.0)}
+
+
+@st.composite
+def _log_alphas(draw):
+    """Temperature parameter log(alpha) over its whole useful float32 range, not only around the initial
+    value 0: alpha from ~1e-11 to ~3e3 (a run that stays below / above its entropy target for long drives
+    log(alpha) far from 0; nothing in the documentation bounds it).  Regime first, then a position strictly
+    inside it (Hypothesis' float strategies favour the end points, which all belong to the inner regime)."""
+    regime = draw(st.sampled_from(["above2", "below-20", "inner", "above2", "below-20", "zero", "negative",
+                                   "special"]))
+    if regime == "zero":
+        return 0.0
+    if regime == "special":
+        return draw(st.sampled_from([2.5, 3.0, 5.0, 8.0, -12.0, -20.5, -22.0, -25.0, 2.0, -20.0]))
+    lo, hi = _LA_RANGES[regime]
+    pos = (draw(st.sampled_from(list(range(40)))) + draw(st.sampled_from([0.25, 0.5, 0.75]))) / 40.0
+    return float(np.float32(lo + (hi - lo) * pos))
+
+
 @st.composite
 def alpha_cases(draw):
     case = draw(_base(["tanh_gaussian", "tanh_gaussian", "gaussian"]))
     case["key_seed"] = draw(gen.seeds())
-    case["lr"] = draw(st.sampled_from([1e-3, 3e-4, 0.1]))
+    # learning rates >= 1 walk log(alpha) out of [-2, 2] within the 1-3 updates of a case
+    case["lr"] = draw(st.sampled_from([0.1, 1e-3, 3e-4, 0.1, 1.0, 3.0]))
     # target entropy: the documented default (-action dim) or placed at a chosen offset from the
     # sampled entropy estimate (both sides, from far to close)
-    case["target"] = draw(st.one_of(
-        st.none(),
-        st.tuples(st.sampled_from([-1, 1]), st.sampled_from([1e-2, 0.1, 1.0, 10.0])).map(lambda t: t[0] * t[1])))
-    case["log_alpha"] = draw(st.one_of(st.just(0.0), gen.f32(-2.0, 2.0)))
-    case["autotune"] = draw(st.sampled_from([True, True, True, False]))
+    # (sign and size are separate draws; offsets > 0 put the estimate below the target: alpha has to rise)
+    if draw(st.sampled_from(["placed", "default", "placed", "placed", "placed"])) == "default":
+        case["target"] = None
+    else:
+        case["target"] = draw(st.sampled_from([1, 1, 1, -1, -1])) * draw(st.sampled_from([1.0, 0.1, 1e-2, 10.0]))
+    case["log_alpha"] = draw(_log_alphas())
+    # log(alpha) at which EntropyControl starts: None = as constructed (0), else placed
+    case["init_log_alpha"] = draw(_log_alphas()) if draw(st.sampled_from([1, 1, 1, 0])) else None
+    case["n_updates"] = draw(st.sampled_from([2, 1, 3, 1]))
+    case["autotune"] = draw(st.sampled_from([True, True, True, True, True, False]))
     return case
+
+
+def _la_class(la):
+    return "la>2" if la > 2.0 else ("la<-20" if la < -20.0 else ("la=0" if la == 0.0 else "la-in[-20,2]"))
 
 
 def run_alpha(case):
@@ -867,48 +1169,86 @@ def run_alpha(case):
               f"update returned {out}, alpha_={ec.alpha_}")
         return Outcome(labels=labels + ["autotune-off"], nontrivial=False)
 
-    ec = EntropyControl(_Env(), 0.2, True, case["lr"])
+    lr = float(case["lr"])
+    ec = EntropyControl(_Env(), 0.2, True, lr)
     check(float(ec.target_entropy) == -float(ad), "sac_alpha.default_target_is_minus_action_dim",
           f"{ec.target_entropy} for action dim {ad}")
     if case["target"] is not None:
         ec.target_entropy = float(np.float32(h_est + case["target"]))
     target = float(ec.target_entropy)
     margin = 2e-5 * (1.0 + np.abs(logp).max() + abs(target)) + err.mean()
-    alpha0 = float(np.asarray(ec.alpha_).reshape(-1)[0])
-    check(alpha0 == 1.0, "sac_alpha.initial_alpha_is_one", f"{alpha0}")
-    try:
-        loss = ec.update(policy, obs, key)
-    except Exception as e:  # noqa: BLE001
-        if n == 1:
-            return Outcome(labels=labels + ["batch1-rejected:" + type(e).__name__], nontrivial=False)
-        raise
-    alpha1 = float(np.asarray(ec.alpha_).reshape(-1)[0])
-    ref_loss = (-alpha0 * (logp + target)).mean()
     sc = max(1e-3, np.abs(logp).max() + abs(target))
-    check(_within(loss, ref_loss, sc, alpha0 * err.mean()), "sac_alpha.update.loss_value",
-          lambda: f"{float(loss)} vs {ref_loss} (target {target}, entropy estimate {h_est})")
     side = "below" if h_est < target - margin else ("above" if h_est > target + margin else "tie")
-    if side == "below":
-        check(alpha1 > alpha0, "sac_alpha.update.alpha_rises_iff_entropy_below_target",
-              f"entropy estimate {h_est} < target {target} but alpha {alpha0} -> {alpha1}")
-    elif side == "above":
-        check(alpha1 < alpha0, "sac_alpha.update.alpha_rises_iff_entropy_below_target",
-              f"entropy estimate {h_est} > target {target} but alpha {alpha0} -> {alpha1}")
-    # temperature loss and its gradient at a generated log-alpha
+    check(float(np.asarray(ec.alpha_).reshape(-1)[0]) == 1.0, "sac_alpha.initial_alpha_is_one", f"{ec.alpha_}")
+    if case.get("init_log_alpha") is not None:
+        # the coefficient module of an EntropyControl somewhere in a long run (its optimizer is still fresh)
+        ec._alpha.log_alpha.value = jnp.asarray([np.float32(case["init_log_alpha"])])
+        ec.alpha_ = ec._alpha()
+
+    def read():
+        la = np.asarray(ec._alpha.log_alpha.value, dtype=np.float32).reshape(-1)[0]
+        return la, float(np.asarray(ec.alpha_).reshape(-1)[0])
+
+    # ---- 1-3 consecutive EntropyControl.update steps on the same batch / key: the entropy estimate stays on
+    # the same side of the target, so every step has to move the temperature the same way
+    min_rel = 1.0  # smallest |g| / (|g| + 1e-8) so far: Adam's step is about lr times this
+    la_path = []
+    for j in range(case.get("n_updates", 1)):
+        la0, alpha0 = read()
+        a_ref = float(np.exp(np.float64(la0)))
+        check(close(alpha0, a_ref, rel=1e-5, abs_=1e-37), "sac_alpha.alpha_is_exp_of_log_alpha",
+              lambda: f"alpha_={alpha0} but exp(log_alpha={float(la0)})={a_ref} (before update {j + 1})")
+        try:
+            loss = ec.update(policy, obs, key)
+        except Exception as e:  # noqa: BLE001
+            if n == 1:
+                return Outcome(labels=labels + ["batch1-rejected:" + type(e).__name__], nontrivial=False)
+            raise
+        la1, alpha1 = read()
+        la_path.append([float(la0), float(la1)])
+        ref_loss = (-a_ref * (logp + target)).mean()
+        check(_within(loss, ref_loss, a_ref * sc, a_ref * err.mean()), "sac_alpha.update.loss_value",
+              lambda: f"{float(loss)} vs {ref_loss} (log_alpha {float(la0)}, target {target}, entropy estimate {h_est})")
+        check(close(alpha1, float(np.exp(np.float64(la1))), rel=1e-5, abs_=1e-37),
+              "sac_alpha.alpha_is_exp_of_log_alpha",
+              lambda: f"alpha_={alpha1} but exp(log_alpha={float(la1)}) after update {j + 1}")
+        if side == "tie":
+            break
+        # Compared on log(alpha) (what the optimizer moves; alpha = exp of it is monotone).  Strict movement
+        # is demanded only where the step is resolvable in float32: Adam moves log(alpha) by about
+        # lr * |g| / (|g| + 1e-8); for alpha ~ 1e-9 and below |g| drops under Adam's epsilon and the step can
+        # vanish next to |log(alpha)| ~ 20.
+        g_abs = a_ref * abs(h_est - target)
+        min_rel = min(min_rel, g_abs / (g_abs + 1e-8))
+        resolvable = 0.1 * lr * min_rel > 4.0 * float(np.spacing(np.float32(max(abs(float(la0)), 1.0))))
+        up = side == "below"
+        moved_right = (la1 > la0) if up else (la1 < la0)
+        not_wrong = (la1 >= la0 and alpha1 >= alpha0) if up else (la1 <= la0 and alpha1 <= alpha0)
+        detail = (f"update {j + 1}: entropy estimate {h_est} {'<' if up else '>'} target {target}, lr {lr}, "
+                  f"log_alpha {float(la0)} -> {float(la1)}, alpha {alpha0} -> {alpha1}")
+        check(not_wrong, "sac_alpha.update.alpha_rises_iff_entropy_below_target", detail)
+        if resolvable:
+            check(moved_right, "sac_alpha.update.alpha_rises_iff_entropy_below_target", detail)
+        labels.append("step-resolvable" if resolvable else "step-below-f32-resolution")
+        labels.append("update-at:" + _la_class(float(la0)))
+    # ---- temperature loss and its gradient at a generated log-alpha
     la = np.float32(case["log_alpha"])
     coef = EntropyCoefficient(jnp.asarray([la]))
     lv, g = nnx.value_and_grad(sac_exploration_loss, argnums=4)(policy, target, key, obs, coef)
     a = float(np.exp(np.float64(la)))
     check(_within(lv, (-a * (logp + target)).mean(), a * sc, a * err.mean()), "sac_alpha.loss.value",
-          lambda: f"{float(lv)} vs {(-a * (logp + target)).mean()}")
+          lambda: f"{float(lv)} vs {(-a * (logp + target)).mean()} (log_alpha {float(la)})")
     gl = float(np.asarray(nnx.state(g)["log_alpha"].value).reshape(-1)[0])
     gl_ref = -a * (logp.mean() + target)
-    check(_within(gl, gl_ref, a * sc, a * err.mean()), "sac_alpha.loss.grad_log_alpha", lambda: f"{gl} vs {gl_ref}")
+    check(_within(gl, gl_ref, a * sc, a * err.mean()), "sac_alpha.loss.grad_log_alpha",
+          lambda: f"{gl} vs {gl_ref} (log_alpha {float(la)})")
     if side != "tie":
         # descent on this loss raises alpha exactly when the entropy estimate is below the target
         check((gl < 0) == (side == "below") and gl != 0, "sac_alpha.loss.descent_direction",
-              f"grad {gl}, entropy estimate {h_est}, target {target}")
-    labels += ["entropy-" + side, "target=default" if case["target"] is None else "target=placed"]
+              f"grad {gl} at log_alpha {float(la)}, entropy estimate {h_est}, target {target}")
+    labels += ["entropy-" + side, "target=default" if case["target"] is None else "target=placed",
+               "init=" + ("default" if case.get("init_log_alpha") is None else "placed"),
+               "grad-at:" + _la_class(float(la)), f"updates={len(la_path)}"]
     return Outcome(labels=labels, nontrivial=side != "tie" and n >= 1)
 
 
@@ -943,6 +1283,10 @@ SUBCHECKS = [
     SubCheck("ppo", ppo_cases, run_ppo, quick=100, thorough=4000, cost=4.0, shards=3,
              rule="batch >= 2, both advantage signs, gradient norm > 0; mixed mode: both clip sides or a "
                   "favoured-clipped sample next to a contributing one", **_SLOW),
+    SubCheck("ppo_update", ppo_update_cases, run_ppo_update, quick=72, thorough=3000, cost=5.0, shards=3,
+             rule="epochs >= 2, the actor moves, and at least one sample is clipped on its favoured side at the "
+                  "start of an epoch >= 2 of the reference", shrink=False, suppress_too_slow=True,
+             simplify=_simplify_upd),
     SubCheck("dpg", dpg_cases, run_dpg, quick=72, thorough=3000, cost=4.0, shards=3,
              rule="batch >= 2 and gradient norm > 0", **_SLOW),
     SubCheck("sac_actor", sac_cases, run_sac, quick=48, thorough=2000, cost=4.0, shards=2,
